@@ -329,6 +329,8 @@ def prop_of(tag, confl, slice_name=None):
         ps.add("C06")
     if slice_name == "faults" and tag in ("C11r_missing_file", "C11r_missing_decl", "C06l_lost"):
         ps.add("C17")      # "a failed export is not recorded as done": the repeated export is complete
+    if slice_name == "faults" and tag == "C11x_touched_other":
+        ps.add("C17")      # "leaves every other file untouched", "the same directory contents as if the failure had never happened"
     if slice_name == "faults" and tag in ("C11r_missing_decl", "C06l_lost", "C05w_malformed"):
         ps.add("C05")      # lossless merge: also when an export into the shared file failed and was repeated
     return ps
